@@ -390,3 +390,747 @@ Proof.
   - intros [[H _]|[H|[H _]]]; auto.
   - intros [->|H]; [right; left; reflexivity|]. destruct (N.lt_trichotomy x k) as [Hl|[->|Hg]]; [left; split; assumption|right; left; reflexivity|right; right; split; assumption].
 Qed.
+
+(* ================= removal ================= *)
+(* two neighbouring children j, j+1 and the key between them *)
+Definition tailQ (cs : list (list N)) (ks : list N) (j : nat) : list N :=
+  match skipn (S j) ks with [] => [] | k :: ks' => k :: interleave (skipn (S (S j)) cs) ks' end.
+
+Lemma pair_decomp cs ks j : length cs = S (length ks) -> (j < length ks)%nat ->
+  interleave cs ks = zipA (firstn j cs) (firstn j ks) ++ (nth j cs [] ++ nth j ks 0 :: nth (S j) cs []) ++ tailQ cs ks j.
+Proof.
+  intros Hl Hj. rewrite (interleave_at cs ks j Hl) by lia. f_equal. rewrite <- app_assoc. f_equal.
+  rewrite (skipn_cons_nth 0 j ks Hj). cbn [app]. f_equal.
+  rewrite (skipn_cons_nth [] (S j) cs) by lia. unfold tailQ. cbn [interleave].
+  destruct (skipn (S j) ks); [rewrite app_nil_r|]; reflexivity.
+Qed.
+
+Lemma firstn_set_at_lt {A} i j (x : A) l : (j <= i)%nat -> (i <= length l)%nat -> firstn j (set_at i x l) = firstn j l.
+Proof.
+  intros H Hl. unfold set_at. rewrite firstn_app, firstn_length. replace (j - Nat.min i (length l))%nat with O by lia.
+  rewrite firstn_O, app_nil_r, firstn_firstn. f_equal. lia.
+Qed.
+Lemma skipn_add {A} a : forall b (l : list A), skipn a (skipn b l) = skipn (b + a) l.
+Proof. induction b as [|b IH]; intros l; [reflexivity|]. destruct l; [rewrite !skipn_nil; reflexivity|]. cbn. apply IH. Qed.
+Lemma skipn_set_at_gt {A} i j (x : A) l : (i < j)%nat -> (i < length l)%nat -> skipn j (set_at i x l) = skipn j l.
+Proof.
+  intros H Hl. unfold set_at. rewrite skipn_app, firstn_length. rewrite (skipn_all2 (firstn i l)) by (rewrite firstn_length; lia).
+  replace (j - Nat.min i (length l))%nat with (S (j - S i)) by lia. rewrite skipn_cons, skipn_add. cbn [app]. f_equal. lia.
+Qed.
+Lemma nth_firstn {A} (d : A) : forall i j (l : list A), (j < i)%nat -> nth j (firstn i l) d = nth j l d.
+Proof. induction i as [|i IH]; intros [|j] [|x l] H; cbn; try lia; try reflexivity. apply IH. lia. Qed.
+Lemma nth_skipn {A} (d : A) : forall m n (l : list A), nth n (skipn m l) d = nth (m + n) l d.
+Proof. induction m as [|m IH]; intros n [|x l]; cbn; try reflexivity; [destruct n; reflexivity|apply IH]. Qed.
+Lemma nth_set_at_neq {A} i j (x : A) l d : i <> j -> (i < length l)%nat -> nth j (set_at i x l) d = nth j l d.
+Proof.
+  intros Hne Hl. unfold set_at. destruct (Nat.lt_ge_cases j i) as [Hlt|Hge].
+  - rewrite app_nth1 by (rewrite firstn_length; lia). apply nth_firstn. exact Hlt.
+  - rewrite app_nth2 by (rewrite firstn_length; lia). rewrite firstn_length.
+    replace (j - Nat.min i (length l))%nat with (S (j - S i)) by lia. cbn [nth]. rewrite nth_skipn. f_equal. lia.
+Qed.
+
+Lemma remove_at_length {A} i (l : list A) : (i < length l)%nat -> length (remove_at i l) = (length l - 1)%nat.
+Proof. intros H. unfold remove_at. rewrite app_length, firstn_length, skipn_length. lia. Qed.
+Lemma firstn_remove_at {A} i j (l : list A) : (j <= i)%nat -> (i <= length l)%nat -> firstn j (remove_at i l) = firstn j l.
+Proof.
+  intros H Hl. unfold remove_at. rewrite firstn_app, firstn_length. replace (j - Nat.min i (length l))%nat with O by lia.
+  rewrite firstn_O, app_nil_r, firstn_firstn. f_equal. lia.
+Qed.
+Lemma skipn_remove_at {A} i (l : list A) : (i <= length l)%nat -> skipn i (remove_at i l) = skipn (S i) l.
+Proof.
+  intros Hl. unfold remove_at. rewrite skipn_app, firstn_length. rewrite (skipn_all2 (firstn i l)) by (rewrite firstn_length; lia).
+  replace (i - Nat.min i (length l))%nat with O by lia. reflexivity.
+Qed.
+
+Lemma pair_replace cs ks j c1 k1 c2 : length cs = S (length ks) -> (j < length ks)%nat ->
+  interleave (set_at (S j) c2 (set_at j c1 cs)) (set_at j k1 ks) =
+  zipA (firstn j cs) (firstn j ks) ++ (c1 ++ k1 :: c2) ++ tailQ cs ks j.
+Proof.
+  intros Hl Hj.
+  assert (L1 : length (set_at j c1 cs) = length cs) by (apply set_at_length; lia).
+  assert (L2 : length (set_at (S j) c2 (set_at j c1 cs)) = length cs) by (rewrite set_at_length; lia).
+  assert (L3 : length (set_at j k1 ks) = length ks) by (apply set_at_length; lia).
+  rewrite (pair_decomp _ _ j) by lia.
+  rewrite (firstn_set_at_lt (S j) j) by lia. rewrite (firstn_set_at j) by lia. rewrite (firstn_set_at j k1 ks) by lia.
+  rewrite (nth_set_at_neq (S j) j) by lia. rewrite (nth_set_at j c1 cs) by lia. rewrite (nth_set_at j k1 ks) by lia.
+  rewrite (nth_set_at (S j)) by lia.
+  unfold tailQ. rewrite (skipn_set_at j k1 ks) by lia. rewrite (skipn_set_at (S j)) by lia.
+  rewrite (skipn_set_at_gt j (S (S j))) by lia. reflexivity.
+Qed.
+
+Lemma pair_merge cs ks j m : length cs = S (length ks) -> (j < length ks)%nat ->
+  interleave (set_at j m (remove_at (S j) cs)) (remove_at j ks) = zipA (firstn j cs) (firstn j ks) ++ m ++ tailQ cs ks j.
+Proof.
+  intros Hl Hj.
+  assert (L1 : length (remove_at (S j) cs) = length ks) by (rewrite remove_at_length; lia).
+  assert (L2 : length (set_at j m (remove_at (S j) cs)) = length ks) by (rewrite set_at_length; lia).
+  assert (L3 : length (remove_at j ks) = (length ks - 1)%nat) by (apply remove_at_length; lia).
+  rewrite (interleave_at _ _ j) by lia.
+  rewrite (firstn_set_at j) by lia. rewrite (firstn_remove_at (S j) j) by lia. rewrite (firstn_remove_at j j) by lia.
+  rewrite (nth_set_at j) by lia. rewrite (skipn_remove_at j ks) by lia.
+  rewrite (skipn_set_at j) by lia. rewrite (skipn_remove_at (S j) cs) by lia. reflexivity.
+Qed.
+
+(* ---- taking a node apart at its ends, putting nodes together ---- *)
+Definition nkeys (t : btn) : nat := length (keys_of t).
+Definition lastkid_flat (d : nat) (t : btn) : list N :=
+  match kids_of t with [] => [] | _ => inorder (pred d) (last (kids_of t) empty_node) end.
+Definition firstkid_flat (d : nat) (t : btn) : list N :=
+  match kids_of t with [] => [] | c :: _ => inorder (pred d) c end.
+
+Lemma removelast_firstn {A} (l : list A) : removelast l = firstn (length l - 1) l.
+Proof.
+  induction l as [|a l IH]; [reflexivity|]. destruct l as [|b l]; [reflexivity|].
+  change (removelast (a :: b :: l)) with (a :: removelast (b :: l)). rewrite IH. cbn [length]. replace (S (S (length l)) - 1)%nat with (S (S (length l) - 1)) by lia. reflexivity.
+Qed.
+Lemma last_nth {A} (l : list A) d : last l d = nth (length l - 1) l d.
+Proof.
+  induction l as [|a l IH]; [reflexivity|]. destruct l as [|b l]; [reflexivity|].
+  change (last (a :: b :: l) d) with (last (b :: l) d). rewrite IH. cbn [length]. replace (S (S (length l)) - 1)%nat with (S (S (length l) - 1)) by lia. reflexivity.
+Qed.
+
+Lemma interleave_full cs ks : length cs = S (length ks) ->
+  interleave cs ks = zipA (firstn (length ks) cs) ks ++ nth (length ks) cs [].
+Proof.
+  intros Hl. rewrite (interleave_at cs ks (length ks) Hl) by lia. rewrite firstn_all, skipn_all. rewrite app_nil_r. reflexivity.
+Qed.
+
+Lemma node_last d t : shape d t -> (1 <= nkeys t)%nat ->
+  inorder d t = inorder d (BT (removelast (keys_of t)) (removelast (kids_of t))) ++ last (keys_of t) 0 :: lastkid_flat d t.
+Proof.
+  destruct t as [ks cs]. unfold nkeys, lastkid_flat. cbn [keys_of kids_of]. intros Hs Hn. destruct d as [|d]; cbn [shape] in Hs; destruct Hs as [_ Hs].
+  - subst cs. cbn [inorder removelast]. rewrite <- app_removelast_last by (destruct ks; [cbn in Hn; lia|discriminate]). reflexivity.
+  - destruct Hs as [Hl _]. cbn [inorder pred]. set (f := inorder d). set (n := (length ks - 1)%nat).
+    assert (Hcs : cs <> []) by (destruct cs; [discriminate|discriminate]).
+    destruct cs as [|c0 cs']; [contradiction|]. set (cs := c0 :: cs') in *.
+    rewrite (interleave_at (map f cs) ks n) by (rewrite ?map_length; lia).
+    rewrite (skipn_cons_nth 0 n ks) by lia. replace (S n) with (length ks) by lia. rewrite skipn_all.
+    rewrite (skipn_cons_nth [] (length ks) (map f cs)) by (rewrite map_length; lia).
+    rewrite skipn_all2 by (rewrite map_length; lia). cbn [interleave].
+    rewrite !removelast_firstn. rewrite Hl. replace (S (length ks) - 1)%nat with (length ks) by lia. fold n.
+    rewrite (interleave_full (map f (firstn (length ks) cs)) (firstn n ks)) by (rewrite map_length, !firstn_length; lia).
+    rewrite firstn_length. replace (Nat.min n (length ks)) with n by lia.
+    rewrite <- firstn_map. rewrite firstn_firstn. replace (Nat.min n (length ks)) with n by lia.
+    rewrite (nth_firstn [] (length ks) n) by lia.
+    rewrite <- app_assoc. f_equal. f_equal. rewrite !last_nth. replace (length ks - 1)%nat with n by reflexivity.
+    f_equal. rewrite Hl. replace (S (length ks) - 1)%nat with (length ks) by lia.
+    rewrite <- (inorder_empty d). fold f. rewrite map_nth. reflexivity.
+Qed.
+
+Lemma node_first d t : shape d t -> (1 <= nkeys t)%nat ->
+  inorder d t = firstkid_flat d t ++ hd 0 (keys_of t) :: inorder d (BT (tl (keys_of t)) (tl (kids_of t))).
+Proof.
+  destruct t as [ks cs]. unfold nkeys, firstkid_flat. cbn [keys_of kids_of]. intros Hs Hn.
+  destruct ks as [|k0 ks]; [cbn in Hn; lia|]. destruct d as [|d]; cbn [shape] in Hs; destruct Hs as [_ Hs].
+  - subst cs. reflexivity.
+  - destruct Hs as [Hl _]. destruct cs as [|c0 cs]; [discriminate|]. cbn [inorder map interleave pred hd tl]. reflexivity.
+Qed.
+
+(* a key (and, between inner nodes, a child) put in front of a node / behind a node; two nodes and a key joined *)
+Lemma cons_node d k mc r : shape d r -> (match d with O => mc = None | S _ => mc <> None end) ->
+  inorder d (BT (k :: keys_of r) (match mc with None => kids_of r | Some c => c :: kids_of r end)) =
+  (match mc with None => [] | Some c => inorder (pred d) c end) ++ k :: inorder d r.
+Proof.
+  destruct r as [ks cs]. cbn [keys_of kids_of]. intros Hs Hm. destruct d as [|d]; cbn [shape] in Hs; destruct Hs as [_ Hs].
+  - subst mc cs. reflexivity.
+  - destruct mc as [c|]; [|contradiction]. cbn [inorder map interleave pred]. reflexivity.
+Qed.
+Lemma snoc_node d l k mc : shape d l -> (match d with O => mc = None | S _ => mc <> None end) ->
+  inorder d (BT (keys_of l ++ [k]) (match mc with None => kids_of l | Some c => kids_of l ++ [c] end)) =
+  inorder d l ++ k :: (match mc with None => [] | Some c => inorder (pred d) c end).
+Proof.
+  destruct l as [ks cs]. cbn [keys_of kids_of]. intros Hs Hm. destruct d as [|d]; cbn [shape] in Hs; destruct Hs as [_ Hs].
+  - subst mc cs. reflexivity.
+  - destruct mc as [c|]; [|contradiction]. destruct Hs as [Hl _]. cbn [inorder pred]. set (f := inorder d).
+    rewrite map_app. cbn [map].
+    rewrite (interleave_full (map f cs) ks) by (rewrite map_length; lia).
+    rewrite <- (firstn_skipn (length ks) (map f cs)) at 1.
+    rewrite <- app_assoc. rewrite interleave_app by (rewrite firstn_length, map_length; lia).
+    rewrite (skipn_cons_nth [] (length ks) (map f cs)) by (rewrite map_length; lia).
+    rewrite skipn_all2 by (rewrite map_length; lia). cbn [app interleave]. rewrite <- app_assoc. reflexivity.
+Qed.
+Lemma merge_node d l k r : shape d l -> shape d r ->
+  inorder d (BT (keys_of l ++ k :: keys_of r) (kids_of l ++ kids_of r)) = inorder d l ++ k :: inorder d r.
+Proof.
+  destruct l as [lk lc], r as [rk rc]. cbn [keys_of kids_of]. intros Hl Hr. destruct d as [|d]; cbn [shape] in Hl, Hr; destruct Hl as [_ Hl], Hr as [_ Hr].
+  - subst lc rc. reflexivity.
+  - destruct Hl as [Hll _], Hr as [Hrl _]. cbn [inorder]. set (f := inorder d). rewrite map_app.
+    rewrite (interleave_full (map f lc) lk) by (rewrite map_length; lia).
+    rewrite <- (firstn_skipn (length lk) (map f lc)) at 1. rewrite <- app_assoc.
+    rewrite interleave_app by (rewrite firstn_length, map_length; lia).
+    rewrite (skipn_cons_nth [] (length lk) (map f lc)) by (rewrite map_length; lia).
+    rewrite skipn_all2 by (rewrite map_length; lia). cbn [app interleave]. rewrite <- app_assoc. reflexivity.
+Qed.
+
+(* ---- occupancy: every node below the root has at least ORDER/2 keys ---- *)
+Fixpoint minocc (d : nat) (t : btn) : Prop :=
+  match d with
+  | O => True
+  | S d' => Forall (fun c => (middle <= nkeys c)%nat /\ minocc d' c) (kids_of t)
+  end.
+Definition kid_ok (d : nat) (c : btn) : Prop := shape d c /\ (middle <= nkeys c)%nat /\ minocc d c.
+
+Lemma shape_kids d t : shape d t -> match d with O => kids_of t = [] | S d' => length (kids_of t) = S (nkeys t) /\ Forall (shape d') (kids_of t) end.
+Proof. destruct t as [ks cs]. destruct d; cbn [shape]; intros [_ H]; exact H. Qed.
+Lemma shape_len d t : shape d t -> (nkeys t <= order)%nat.
+Proof. destruct t as [ks cs]. destruct d; cbn [shape]; intros [H _]; exact H. Qed.
+
+Lemma forall_removelast {A} (P : A -> Prop) l : Forall P l -> Forall P (removelast l).
+Proof. intros H. rewrite removelast_firstn. rewrite Forall_forall in *. intros x Hx. apply H. rewrite <- (firstn_skipn (length l - 1) l). apply in_or_app. left. exact Hx. Qed.
+Lemma forall_tl {A} (P : A -> Prop) l : Forall P l -> Forall P (tl l).
+Proof. intros H. destruct l; [constructor|]. inversion H; assumption. Qed.
+Lemma forall_last {A} (P : A -> Prop) l d : Forall P l -> l <> [] -> P (last l d).
+Proof. intros H Hne. rewrite Forall_forall in H. apply H. destruct (exists_last Hne) as [l' [a ->]]. rewrite last_last. apply in_or_app. right. left. reflexivity. Qed.
+Lemma removelast_length {A} (l : list A) : length (removelast l) = (length l - 1)%nat.
+Proof. rewrite removelast_firstn, firstn_length. lia. Qed.
+
+(* the rich left sibling gives its last key (and child) through the parent *)
+Lemma borrow_left_spec d l k r : kid_ok d l -> (middle < nkeys l)%nat -> shape d r -> (nkeys r = middle - 1)%nat -> minocc d r ->
+  let l' := BT (removelast (keys_of l)) (removelast (kids_of l)) in
+  let r' := BT (k :: keys_of r) (match kids_of l with [] => kids_of r | _ => last (kids_of l) empty_node :: kids_of r end) in
+  inorder d l ++ k :: inorder d r = inorder d l' ++ last (keys_of l) 0 :: inorder d r' /\ kid_ok d l' /\ kid_ok d r'.
+Proof.
+  destruct order_val as [Ho Hm]. intros [Hsl [Hnl Hml]] Hrich Hsr Hnr Hmr l' r'.
+  pose proof (shape_kids d l Hsl) as Hkl. pose proof (shape_kids d r Hsr) as Hkr. pose proof (shape_len d l Hsl) as Hll.
+  set (mc := match kids_of l with [] => None | _ => Some (last (kids_of l) empty_node) end).
+  assert (Hmc : match d with O => mc = None | S _ => mc <> None end).
+  { unfold mc. destruct d; [rewrite Hkl; reflexivity|]. destruct Hkl as [Hlen _]. destruct (kids_of l); [discriminate|discriminate]. }
+  assert (Er' : r' = BT (k :: keys_of r) (match mc with None => kids_of r | Some c => c :: kids_of r end)).
+  { unfold r', mc. destruct (kids_of l); reflexivity. }
+  assert (El : lastkid_flat d l = match mc with None => [] | Some c => inorder (pred d) c end).
+  { unfold lastkid_flat, mc. destruct (kids_of l); reflexivity. }
+  assert (Hc : forall c, mc = Some c -> c = last (kids_of l) empty_node /\ kids_of l <> []).
+  { intros c Emc. unfold mc in Emc. destruct (kids_of l) as [|x xs]; [discriminate|]. injection Emc as <-. split; [reflexivity|discriminate]. }
+  split; [|split].
+  - rewrite (node_last d l Hsl) by lia. fold l'. rewrite Er', (cons_node d k mc r Hsr Hmc), El. rewrite <- app_assoc. reflexivity.
+  - unfold kid_ok, l', nkeys. cbn [keys_of kids_of]. split; [|split].
+    + destruct d; cbn [shape]; (split; [rewrite removelast_length; unfold nkeys in *; lia|]).
+      * rewrite Hkl. reflexivity.
+      * destruct Hkl as [Hlen Hf]. split; [rewrite !removelast_length; unfold nkeys in *; lia|apply forall_removelast; exact Hf].
+    + rewrite removelast_length. unfold nkeys in *. lia.
+    + destruct d; cbn [minocc kids_of]; [exact I|]. apply forall_removelast. exact Hml.
+  - unfold kid_ok. rewrite Er'. unfold nkeys. cbn [keys_of kids_of]. split; [|split].
+    + destruct d; cbn [shape]; (split; [cbn [length]; unfold nkeys in *; lia|]).
+      * rewrite Hmc. exact Hkr.
+      * destruct mc as [c|] eqn:Emc; [|contradiction]. destruct Hkr as [Hlen Hf]. destruct Hkl as [Hlenl Hfl]. split; [cbn [length]; unfold nkeys in *; lia|].
+        constructor; [|exact Hf]. destruct (Hc c eq_refl) as [-> Hne]. apply forall_last; [exact Hfl|exact Hne].
+    + cbn [length]. unfold nkeys in *. lia.
+    + destruct d; cbn [minocc kids_of]; [exact I|]. destruct mc as [c|] eqn:Emc; [|contradiction]. cbn [minocc] in Hml, Hmr.
+      constructor; [|exact Hmr]. destruct (Hc c eq_refl) as [-> Hne]. apply (forall_last _ _ _ Hml). exact Hne.
+Qed.
+
+(* the rich right sibling gives its first key (and child) *)
+Lemma borrow_right_spec d l k r : shape d l -> (nkeys l = middle - 1)%nat -> minocc d l -> kid_ok d r -> (middle < nkeys r)%nat ->
+  let r' := BT (tl (keys_of r)) (tl (kids_of r)) in
+  let l' := BT (keys_of l ++ [k]) (match kids_of r with [] => kids_of l | c :: _ => kids_of l ++ [c] end) in
+  inorder d l ++ k :: inorder d r = inorder d l' ++ hd 0 (keys_of r) :: inorder d r' /\ kid_ok d l' /\ kid_ok d r'.
+Proof.
+  destruct order_val as [Ho Hm]. intros Hsl Hnl Hml [Hsr [Hnr Hmr]] Hrich r' l'.
+  pose proof (shape_kids d l Hsl) as Hkl. pose proof (shape_kids d r Hsr) as Hkr. pose proof (shape_len d r Hsr) as Hlr.
+  set (mc := match kids_of r with [] => None | c :: _ => Some c end).
+  assert (Hmc : match d with O => mc = None | S _ => mc <> None end).
+  { unfold mc. destruct d; [rewrite Hkr; reflexivity|]. destruct Hkr as [Hlen _]. destruct (kids_of r); [discriminate|discriminate]. }
+  assert (El' : l' = BT (keys_of l ++ [k]) (match mc with None => kids_of l | Some c => kids_of l ++ [c] end)).
+  { unfold l', mc. destruct (kids_of r); reflexivity. }
+  assert (Er : firstkid_flat d r = match mc with None => [] | Some c => inorder (pred d) c end).
+  { unfold firstkid_flat, mc. destruct (kids_of r); reflexivity. }
+  assert (Hc : forall c, mc = Some c -> exists rest, kids_of r = c :: rest).
+  { intros c Emc. unfold mc in Emc. destruct (kids_of r) as [|x xs]; [discriminate|]. injection Emc as <-. eexists; reflexivity. }
+  split; [|split].
+  - rewrite (node_first d r Hsr) by lia. fold r'. rewrite El', (snoc_node d l k mc Hsl Hmc), Er. rewrite <- app_assoc. reflexivity.
+  - unfold kid_ok. rewrite El'. unfold nkeys. cbn [keys_of kids_of]. split; [|split].
+    + destruct d; cbn [shape]; (split; [rewrite app_length; cbn [length]; unfold nkeys in *; lia|]).
+      * rewrite Hmc. exact Hkl.
+      * destruct mc as [c|] eqn:Emc; [|contradiction]. destruct Hkl as [Hlen Hf]. destruct Hkr as [Hlenr Hfr].
+        split; [rewrite !app_length; cbn [length]; unfold nkeys in *; lia|]. apply Forall_app. split; [exact Hf|].
+        constructor; [|constructor]. destruct (Hc c eq_refl) as [rest Er0]. rewrite Er0 in Hfr. inversion Hfr; assumption.
+    + rewrite app_length. cbn [length]. unfold nkeys in *. lia.
+    + destruct d; cbn [minocc kids_of]; [exact I|]. destruct mc as [c|] eqn:Emc; [|contradiction]. cbn [minocc] in Hml, Hmr.
+      apply Forall_app. split; [exact Hml|]. constructor; [|constructor]. destruct (Hc c eq_refl) as [rest Er0]. rewrite Er0 in Hmr. inversion Hmr; assumption.
+  - unfold kid_ok, r', nkeys. cbn [keys_of kids_of]. assert (Htl : length (tl (keys_of r)) = (nkeys r - 1)%nat) by (unfold nkeys; destruct (keys_of r); cbn; lia).
+    split; [|split].
+    + destruct d; cbn [shape]; (split; [rewrite Htl; lia|]).
+      * rewrite Hkr. reflexivity.
+      * destruct Hkr as [Hlen Hf]. split; [|apply forall_tl; exact Hf]. rewrite Htl. destruct (kids_of r); cbn in *; lia.
+    + rewrite Htl. lia.
+    + destruct d; cbn [minocc kids_of]; [exact I|]. apply forall_tl. exact Hmr.
+Qed.
+
+(* two poor neighbours and the key between them become one node *)
+Lemma merge_spec d l k r : shape d l -> shape d r -> minocc d l -> minocc d r ->
+  (nkeys l + nkeys r = 2 * middle - 1)%nat -> (middle - 1 <= nkeys l)%nat -> (middle - 1 <= nkeys r)%nat ->
+  let m := BT (keys_of l ++ k :: keys_of r) (kids_of l ++ kids_of r) in
+  inorder d m = inorder d l ++ k :: inorder d r /\ kid_ok d m.
+Proof.
+  destruct order_val as [Ho Hm]. intros Hsl Hsr Hml Hmr Hsum Hl1 Hr1 m.
+  pose proof (shape_kids d l Hsl) as Hkl. pose proof (shape_kids d r Hsr) as Hkr.
+  split; [apply merge_node; assumption|]. unfold kid_ok, m, nkeys. cbn [keys_of kids_of]. split; [|split].
+  - destruct d; cbn [shape]; (split; [rewrite app_length; cbn [length]; unfold nkeys in *; lia|]).
+    + rewrite Hkl, Hkr. reflexivity.
+    + destruct Hkl as [H1 F1], Hkr as [H2 F2]. split; [rewrite !app_length; cbn [length]; unfold nkeys in *; lia|apply Forall_app; split; assumption].
+  - rewrite app_length. cbn [length]. unfold nkeys in *. lia.
+  - destruct d; cbn [minocc kids_of]; [exact I|]. cbn [minocc] in Hml, Hmr. apply Forall_app. split; assumption.
+Qed.
+
+Lemma nth_remove_at {A} k i (l : list A) d : (k <= length l)%nat ->
+  nth i (remove_at k l) d = if Nat.ltb i k then nth i l d else nth (S i) l d.
+Proof.
+  intros Hk. unfold remove_at. destruct (Nat.ltb_spec i k) as [Hlt|Hge].
+  - rewrite app_nth1 by (rewrite firstn_length; lia). apply nth_firstn. exact Hlt.
+  - rewrite app_nth2 by (rewrite firstn_length; lia). rewrite firstn_length, nth_skipn. f_equal. lia.
+Qed.
+
+Lemma child_map d cs i : nth i (map (inorder d) cs) [] = inorder d (child_at cs i).
+Proof. unfold child_at. rewrite <- (inorder_empty d). apply map_nth. Qed.
+
+(* Node::rebalance *)
+Lemma rebalance_spec d ks cs a :
+  length cs = S (length ks) -> (1 <= length ks)%nat -> (a <= length ks)%nat ->
+  (forall j, (j < length cs)%nat -> j <> a -> kid_ok d (child_at cs j)) ->
+  shape d (child_at cs a) -> (nkeys (child_at cs a) = middle - 1)%nat -> minocc d (child_at cs a) ->
+  let t' := rebalance ks cs a in
+  inorder (S d) t' = interleave (map (inorder d) cs) ks /\
+  length (kids_of t') = S (nkeys t') /\ Forall (kid_ok d) (kids_of t') /\
+  (nkeys t' = length ks \/ S (nkeys t') = length ks).
+Proof.
+  destruct order_val as [Ho Hm]. intros Hl Hk1 Ha Hall Hsa Hna Hma t'. unfold t', rebalance.
+  assert (Hmapl : length (map (inorder d) cs) = S (length ks)) by (rewrite map_length; exact Hl).
+  destruct ((0 <? a)%nat && rich (child_at cs (a - 1))) eqn:C1.
+  - (* from the left *)
+    apply andb_true_iff in C1 as [Ha0 Hrich]. apply Nat.ltb_lt in Ha0. unfold rich in Hrich. apply Nat.ltb_lt in Hrich.
+    set (j := (a - 1)%nat) in *. assert (Hja : a = S j) by lia.
+    assert (Hkl : kid_ok d (child_at cs j)) by (apply Hall; lia).
+    destruct (borrow_left_spec d (child_at cs j) (nth j ks 0) (child_at cs a) Hkl Hrich Hsa Hna Hma) as [Hfl [Hl' Hr']].
+    set (l' := BT (removelast (keys_of (child_at cs j))) (removelast (kids_of (child_at cs j)))) in *.
+    set (r' := BT (nth j ks 0 :: keys_of (child_at cs a)) _) in *.
+    cbn [inorder keys_of kids_of nkeys]. split; [|split; [|split]].
+    + rewrite Hja. rewrite !map_set_at.
+      rewrite (pair_replace (map (inorder d) cs) ks j (inorder d l') (last (keys_of (child_at cs j)) 0) (inorder d r')) by lia.
+      rewrite (pair_decomp (map (inorder d) cs) ks j) by lia. rewrite !child_map. rewrite <- Hja. f_equal. f_equal. symmetry. exact Hfl.
+    + unfold nkeys. cbn [keys_of]. rewrite !set_at_length; rewrite ?set_at_length; lia.
+    + apply Forall_nth. intros i dflt Hi. rewrite !set_at_length in Hi by (rewrite ?set_at_length; lia).
+      destruct (Nat.eq_dec i a) as [->|Hia]; [rewrite nth_set_at by (rewrite set_at_length; lia); exact Hr'|].
+      rewrite nth_set_at_neq by (rewrite ?set_at_length; lia).
+      destruct (Nat.eq_dec i j) as [->|Hij]; [rewrite nth_set_at by lia; exact Hl'|].
+      rewrite nth_set_at_neq by lia. rewrite (nth_indep cs dflt empty_node Hi). apply Hall; assumption.
+    + left. unfold nkeys. cbn [keys_of]. apply set_at_length. lia.
+  - destruct ((S a <? S (length ks))%nat && rich (child_at cs (S a))) eqn:C2.
+    + (* from the right *)
+      apply andb_true_iff in C2 as [Ha1 Hrich]. apply Nat.ltb_lt in Ha1. unfold rich in Hrich. apply Nat.ltb_lt in Hrich.
+      assert (Hkr : kid_ok d (child_at cs (S a))) by (apply Hall; lia).
+      destruct (borrow_right_spec d (child_at cs a) (nth a ks 0) (child_at cs (S a)) Hsa Hna Hma Hkr Hrich) as [Hfl [Hl' Hr']].
+      set (r' := BT (tl (keys_of (child_at cs (S a)))) (tl (kids_of (child_at cs (S a))))) in *.
+      set (l' := BT (keys_of (child_at cs a) ++ [nth a ks 0]) _) in *.
+      cbn [inorder keys_of kids_of nkeys]. split; [|split; [|split]].
+      * rewrite !map_set_at.
+        rewrite (pair_replace (map (inorder d) cs) ks a (inorder d l') (hd 0 (keys_of (child_at cs (S a)))) (inorder d r')) by lia.
+        rewrite (pair_decomp (map (inorder d) cs) ks a) by lia. rewrite !child_map. f_equal. f_equal. symmetry. exact Hfl.
+      * unfold nkeys. cbn [keys_of]. rewrite !set_at_length; rewrite ?set_at_length; lia.
+      * apply Forall_nth. intros i dflt Hi. rewrite !set_at_length in Hi by (rewrite ?set_at_length; lia).
+        destruct (Nat.eq_dec i (S a)) as [->|Hia]; [rewrite nth_set_at by (rewrite set_at_length; lia); exact Hr'|].
+        rewrite nth_set_at_neq by (rewrite ?set_at_length; lia).
+        destruct (Nat.eq_dec i a) as [->|Hij]; [rewrite nth_set_at by lia; exact Hl'|].
+        rewrite nth_set_at_neq by lia. rewrite (nth_indep cs dflt empty_node Hi). apply Hall; assumption.
+      * left. unfold nkeys. cbn [keys_of]. apply set_at_length. lia.
+    + (* merge *)
+      set (j := if (S a =? S (length ks))%nat then (a - 1)%nat else a).
+      assert (Hj : (j < length ks)%nat /\ (a = j \/ a = S j)).
+      { unfold j. destruct (Nat.eqb_spec (S a) (S (length ks))); lia. }
+      destruct Hj as [Hjl Hja].
+      assert (Hpair : shape d (child_at cs j) /\ shape d (child_at cs (S j)) /\ minocc d (child_at cs j) /\ minocc d (child_at cs (S j)) /\
+                      (nkeys (child_at cs j) + nkeys (child_at cs (S j)) = 2 * middle - 1)%nat /\
+                      (middle - 1 <= nkeys (child_at cs j))%nat /\ (middle - 1 <= nkeys (child_at cs (S j)))%nat).
+      { destruct Hja as [Hja|Hja].
+        - (* the poor child is the left one: its right neighbour is not rich *)
+          subst j. rewrite <- Hja in *.
+          assert (Hnl : (S a =? S (length ks))%nat = false) by (apply Nat.eqb_neq; lia).
+          assert (Hkr : kid_ok d (child_at cs (S a))) by (apply Hall; lia). destruct Hkr as [Hsr [Hnr Hmr]].
+          assert (Hnr2 : (nkeys (child_at cs (S a)) <= middle)%nat).
+          { apply andb_false_iff in C2 as [C2|C2]; [apply Nat.ltb_ge in C2; lia|]. unfold rich in C2. apply Nat.ltb_ge in C2. exact C2. }
+          repeat split; try assumption; lia.
+        - (* the poor child is the right one: a is the last child, its left neighbour is not rich *)
+          assert (Hj' : j = (a - 1)%nat) by lia.
+          assert (Hkl : kid_ok d (child_at cs j)) by (apply Hall; lia). destruct Hkl as [Hsl [Hnl Hml]].
+          assert (Hnl2 : (nkeys (child_at cs j) <= middle)%nat).
+          { apply andb_false_iff in C1 as [C1|C1]; [apply Nat.ltb_ge in C1; lia|]. unfold rich in C1. apply Nat.ltb_ge in C1. rewrite <- Hj' in C1. exact C1. }
+          rewrite <- Hja. repeat split; try assumption; lia. }
+      destruct Hpair as [Hsl [Hsr [Hml [Hmr [Hsum [Hl1 Hr1]]]]]].
+      destruct (merge_spec d (child_at cs j) (nth j ks 0) (child_at cs (S j)) Hsl Hsr Hml Hmr Hsum Hl1 Hr1) as [Hfm Hkm].
+      set (m := BT (keys_of (child_at cs j) ++ nth j ks 0 :: keys_of (child_at cs (S j))) (kids_of (child_at cs j) ++ kids_of (child_at cs (S j)))) in *.
+      cbn [inorder keys_of kids_of nkeys]. split; [|split; [|split]].
+      * rewrite map_set_at. unfold remove_at at 1. rewrite map_app, <- firstn_map, <- skipn_map. fold (remove_at (S j) (map (inorder d) cs)).
+        rewrite (pair_merge (map (inorder d) cs) ks j (inorder d m)) by lia.
+        rewrite (pair_decomp (map (inorder d) cs) ks j) by lia. rewrite !child_map. f_equal. f_equal. exact Hfm.
+      * unfold nkeys. cbn [keys_of]. rewrite set_at_length by (rewrite remove_at_length; lia). rewrite !remove_at_length by lia. lia.
+      * apply Forall_nth. intros i dflt Hi. rewrite set_at_length in Hi by (rewrite remove_at_length; lia). rewrite remove_at_length in Hi by lia.
+        destruct (Nat.eq_dec i j) as [->|Hij]; [rewrite nth_set_at by (rewrite remove_at_length; lia); exact Hkm|].
+        rewrite nth_set_at_neq by (rewrite ?remove_at_length; lia). rewrite nth_remove_at by lia.
+        destruct (Nat.ltb_spec i (S j)).
+        -- rewrite (nth_indep cs dflt empty_node) by lia. apply Hall; lia.
+        -- rewrite (nth_indep cs dflt empty_node) by lia. apply Hall; lia.
+      * right. unfold nkeys. cbn [keys_of]. rewrite remove_at_length by lia. lia.
+Qed.
+
+(* ---- the children of a well-shaped node with the occupancy invariant ---- *)
+Lemma kids_ok d ks cs : shape (S d) (BT ks cs) -> minocc (S d) (BT ks cs) ->
+  length cs = S (length ks) /\ forall j, (j < length cs)%nat -> kid_ok d (child_at cs j).
+Proof.
+  cbn [shape minocc kids_of]. intros [_ [Hl Hs]] Hm. split; [exact Hl|]. intros j Hj. unfold kid_ok, child_at.
+  rewrite Forall_forall in Hs, Hm. pose proof (nth_In cs empty_node Hj) as Hin. destruct (Hm _ Hin) as [H1 H2]. split; [apply Hs; exact Hin|split; assumption].
+Qed.
+Lemma node_from_kids d ks cs : (length ks <= order)%nat -> length cs = S (length ks) -> Forall (kid_ok d) cs ->
+  shape (S d) (BT ks cs) /\ minocc (S d) (BT ks cs).
+Proof.
+  intros Hk Hl Hf. cbn [shape minocc kids_of]. rewrite Forall_forall in Hf. split; [split; [exact Hk|split; [exact Hl|]]|]; apply Forall_forall; intros c Hc; destruct (Hf c Hc) as [H1 [H2 H3]]; [exact H1|split; assumption].
+Qed.
+Lemma set_at_kids d cs i c' : (i < length cs)%nat -> (forall j, (j < length cs)%nat -> kid_ok d (child_at cs j)) ->
+  forall j, (j < length (set_at i c' cs))%nat -> j <> i -> kid_ok d (child_at (set_at i c' cs) j).
+Proof.
+  intros Hi Hall j Hj Hne. rewrite set_at_length in Hj by exact Hi. unfold child_at. rewrite nth_set_at_neq by (try lia; exact Hi). apply Hall. exact Hj.
+Qed.
+
+Definition need_claim (need : bool) (n n' : nat) : Prop := need = Nat.ltb n' middle \/ (need = false /\ n' = n).
+
+(* Node::remove_last *)
+Lemma remove_last_spec : forall d t, shape d t -> minocc d t -> (1 <= nkeys t)%nat ->
+  exists t' need s, remove_last d t = (t', need, Some s) /\
+    inorder d t = inorder d t' ++ [s] /\ shape d t' /\ minocc d t' /\
+    (nkeys t' = nkeys t \/ S (nkeys t') = nkeys t) /\ need_claim need (nkeys t) (nkeys t').
+Proof.
+  destruct order_val as [Ho Hm].
+  induction d as [|d IH]; intros [ks cs] Hs Hmin Hn; unfold nkeys in Hn; cbn [keys_of] in Hn.
+  - cbn [shape] in Hs. destruct Hs as [Hlen ->]. cbn [remove_last]. destruct ks as [|k0 ks0] eqn:Ek; [cbn in Hn; lia|]. rewrite <- Ek in *.
+    assert (Hne : ks <> []) by (rewrite Ek; discriminate).
+    exists (BT (removelast ks) []), (need_rebalance (removelast ks)), (last ks 0). unfold nkeys. cbn [keys_of inorder shape minocc].
+    split; [reflexivity|]. split; [apply app_removelast_last; exact Hne|].
+    split; [split; [rewrite removelast_length; lia|reflexivity]|]. split; [exact I|]. split; [right; rewrite removelast_length; lia|left; reflexivity].
+  - destruct (kids_ok d ks cs Hs Hmin) as [Hl Hall]. pose proof (shape_len _ _ Hs) as Hlen. unfold nkeys in Hlen. cbn [keys_of] in Hlen.
+    cbn [remove_last]. destruct ks as [|k0 ks0] eqn:Ek; [cbn in Hn; lia|]. rewrite <- Ek in *.
+    set (i := length ks). assert (Hi : (i < length cs)%nat) by (unfold i; lia).
+    destruct (Hall i Hi) as [Hsc [Hnc Hmc]].
+    destruct (IH (child_at cs i) Hsc Hmc) as [c' [need [s [Er [Hio [Hsc' [Hmc' [Hnk Hcl]]]]]]]]; [lia|]. rewrite Er.
+    (* the traversal with the last child replaced *)
+    assert (Hflat : inorder (S d) (BT ks cs) = inorder (S d) (BT ks (set_at i c' cs)) ++ [s]).
+    { cbn [inorder]. rewrite map_set_at.
+      rewrite (interleave_full (map (inorder d) cs) ks) by (rewrite map_length; lia).
+      rewrite (interleave_full (set_at i (inorder d c') (map (inorder d) cs)) ks) by (rewrite set_at_length; rewrite map_length; lia).
+      fold i. rewrite firstn_set_at by (rewrite map_length; lia). rewrite nth_set_at by (rewrite map_length; lia).
+      rewrite child_map, Hio, app_assoc. reflexivity. }
+    assert (Hkids' : forall j, (j < length (set_at i c' cs))%nat -> j <> i -> kid_ok d (child_at (set_at i c' cs) j)) by (apply set_at_kids; assumption).
+    assert (Hci : child_at (set_at i c' cs) i = c') by (unfold child_at; apply nth_set_at; exact Hi).
+    destruct need.
+    + (* the child fell below the minimum *)
+      assert (Hn' : (nkeys c' = middle - 1)%nat).
+      { destruct Hcl as [Hcl|[Hcl _]]; [|discriminate]. symmetry in Hcl. apply Nat.ltb_lt in Hcl. lia. }
+      destruct (rebalance_spec d ks (set_at i c' cs) i) as [Hf [Hkl [Hko Hnn]]]; try (rewrite ?set_at_length; lia); try (rewrite Hci; assumption).
+      { intros j Hj Hne. apply Hkids'; assumption. }
+      set (t' := rebalance ks (set_at i c' cs) i) in *. destruct t' as [ks' cs'] eqn:Et. unfold nkeys in Hkl, Hnn. cbn [keys_of kids_of] in *.
+      exists (BT ks' cs'), (need_rebalance ks'), s. cbn [keys_of].
+      split; [reflexivity|]. split; [rewrite Hflat; f_equal; symmetry; exact Hf|].
+      destruct (node_from_kids d ks' cs') as [Hs' Hm']; [lia|exact Hkl|exact Hko|].
+      split; [exact Hs'|]. split; [exact Hm'|]. unfold nkeys. cbn [keys_of]. split; [lia|left; reflexivity].
+    + exists (BT ks (set_at i c' cs)), false, s. split; [reflexivity|]. split; [exact Hflat|].
+      assert (Hnk' : (middle <= nkeys c')%nat).
+      { destruct Hcl as [Hcl|[_ Hcl]]; [symmetry in Hcl; apply Nat.ltb_ge in Hcl; exact Hcl|lia]. }
+      destruct (node_from_kids d ks (set_at i c' cs)) as [Hs' Hm']; [lia|rewrite set_at_length; lia| |].
+      { apply Forall_nth. intros j dflt Hj. rewrite (nth_indep _ dflt empty_node Hj). destruct (Nat.eq_dec j i) as [->|Hne].
+        - fold (child_at (set_at i c' cs) i). rewrite Hci. split; [exact Hsc'|split; [exact Hnk'|exact Hmc']].
+        - apply Hkids'; assumption. }
+      split; [exact Hs'|]. split; [exact Hm'|]. unfold nkeys. cbn [keys_of]. split; [left; reflexivity|right; split; reflexivity].
+Qed.
+
+(* ---- removal of a key ---- *)
+Definition spec_del (k : N) (l : list N) : list N := below k l ++ above k l.
+Lemma spec_del_absent k a b : (forall x, In x a -> x < k) -> (forall x, In x b -> k < x) -> spec_del k (a ++ b) = a ++ b.
+Proof.
+  intros Ha Hb. unfold spec_del. rewrite below_app, above_app.
+  destruct (below_all k a Ha) as [-> ->]. destruct (above_all k b Hb) as [-> ->]. rewrite app_nil_r. reflexivity.
+Qed.
+Lemma spec_del_present k a b : (forall x, In x a -> x < k) -> (forall x, In x b -> k < x) -> spec_del k (a ++ k :: b) = a ++ b.
+Proof.
+  intros Ha Hb. unfold spec_del. rewrite below_app, above_app.
+  destruct (below_all k a Ha) as [E1 E2]. destruct (above_all k b Hb) as [E3 E4].
+  unfold below, above in *. cbn [filter]. rewrite N.ltb_irrefl, E1, E2, E3, E4, app_nil_r. reflexivity.
+Qed.
+Lemma spec_del_inner k a m b : (forall x, In x a -> x < k) -> (forall x, In x b -> k < x) ->
+  spec_del k (a ++ m ++ b) = a ++ spec_del k m ++ b.
+Proof.
+  intros Ha Hb. unfold spec_del. rewrite !below_app, !above_app.
+  destruct (below_all k a Ha) as [-> ->]. destruct (above_all k b Hb) as [-> ->].
+  rewrite app_nil_r. cbn [app]. rewrite <- !app_assoc. reflexivity.
+Qed.
+Lemma spec_del_sorted k l : sorted l -> sorted (spec_del k l).
+Proof.
+  intros Hs. unfold spec_del, below, above. apply sorted_app; [apply filter_sorted; exact Hs|apply filter_sorted; exact Hs|].
+  intros x y Hx Hy. apply filter_In in Hx as [_ Hx]. apply filter_In in Hy as [_ Hy]. apply N.ltb_lt in Hx, Hy. lia.
+Qed.
+Lemma spec_del_in k l x : In x (spec_del k l) <-> x <> k /\ In x l.
+Proof.
+  unfold spec_del, below, above. rewrite in_app_iff, !filter_In, !N.ltb_lt. split.
+  - intros [[H1 H2]|[H1 H2]]; split; try assumption; lia.
+  - intros [Hne Hin]. destruct (N.lt_trichotomy x k) as [Hl|[->|Hg]]; [left; split; assumption|contradiction|right; split; assumption].
+Qed.
+
+Lemma keys_sorted d ks cs : length cs = S (length ks) -> sorted (interleave (map (inorder d) cs) ks) -> sorted ks.
+Proof.
+  revert cs. induction ks as [|x ks IHk]; intros cs Hcl Hso; [constructor|].
+  destruct cs as [|c cs]; [discriminate|]. cbn [map interleave] in Hso.
+  apply sorted_app_inv in Hso as [_ [Hso _]]. inversion Hso as [|? ? Hs' Hf]; subst.
+  destruct cs as [|c2 cs]; [cbn in Hcl; lia|]. constructor.
+  - apply (IHk (c2 :: cs)); [cbn in *; lia|exact Hs'].
+  - rewrite Forall_forall in *. intros y Hy. apply Hf. clear -Hy Hcl. cbn [map].
+    revert c2 cs Hcl. induction ks as [|z ks IHz]; intros c2 cs Hcl; [destruct Hy|].
+    destruct cs as [|c3 cs]; [cbn in Hcl; lia|]. cbn [map interleave]. apply in_or_app. right.
+    destruct Hy as [<-|Hy]; [left; reflexivity|right]. apply (IHz Hy c3 cs). cbn in *. lia.
+Qed.
+
+(* where the key is, relative to an inner node *)
+Lemma descend_setup d ks cs k b i : length cs = S (length ks) -> sorted (interleave (map (inorder d) cs) ks) ->
+  position k ks 0 = (b, i) ->
+  let A := zipA (firstn i (map (inorder d) cs)) (firstn i ks) in
+  let B := match skipn i ks with [] => [] | k0 :: ks' => k0 :: interleave (skipn (S i) (map (inorder d) cs)) ks' end in
+  (i <= length ks)%nat /\ interleave (map (inorder d) cs) ks = A ++ inorder d (child_at cs i) ++ B /\
+  sorted (inorder d (child_at cs i)) /\ (forall x, In x A -> x < k) /\
+  (if b then nth_error ks i = Some k /\ (forall x, In x (inorder d (child_at cs i)) -> x < k) /\
+            B = k :: interleave (skipn (S i) (map (inorder d) cs)) (skipn (S i) ks) /\
+            (forall x, In x (interleave (skipn (S i) (map (inorder d) cs)) (skipn (S i) ks)) -> k < x)
+   else forall x, In x B -> k < x).
+Proof.
+  intros Hcl Hso Ep A B. pose proof (keys_sorted d ks cs Hcl Hso) as Hks.
+  destruct (position_spec k ks 0 b i Hks Ep) as [_ [Hi [Hlt Hrest]]]. rewrite Nat.sub_0_r in *.
+  assert (Hat := interleave_at (map (inorder d) cs) ks i). rewrite map_length in Hat. specialize (Hat Hcl Hi).
+  rewrite child_map in Hat. fold A B in Hat. rewrite Hat in Hso.
+  destruct (sorted_app_inv _ _ Hso) as [HsA [HsMB HAMB]]. destruct (sorted_app_inv _ _ HsMB) as [HsM [HsB HMB]].
+  assert (HA : forall x, In x A -> x < k).
+  { intros x Hx. destruct i as [|i']; [unfold A, zipA in Hx; cbn in Hx; destruct Hx|].
+    pose proof (sorted_le_last A HsA x Hx) as Hle. unfold A in Hle.
+    rewrite zipA_last in Hle; [|rewrite !firstn_length, map_length; lia|destruct ks; [cbn in Hi; lia|discriminate]].
+    assert (Hl : In (last (firstn (S i') ks) 0) (firstn (S i') ks)).
+    { destruct (firstn (S i') ks) eqn:E; [destruct ks; [cbn in Hi; lia|discriminate]|]. rewrite <- E.
+      destruct (@exists_last _ (firstn (S i') ks)) as [l' [a' El]]; [rewrite E; discriminate|]. rewrite El, last_last. apply in_or_app. right. left. reflexivity. }
+    specialize (Hlt _ Hl). lia. }
+  split; [exact Hi|]. split; [exact Hat|]. split; [exact HsM|]. split; [exact HA|].
+  destruct b.
+  - destruct Hrest as [Hn Hgt]. assert (Hi' : (i < length ks)%nat) by (apply nth_error_Some; rewrite Hn; discriminate).
+    assert (EB : B = k :: interleave (skipn (S i) (map (inorder d) cs)) (skipn (S i) ks)).
+    { unfold B. rewrite (skipn_cons_nth 0 i ks Hi'), (nth_error_nth ks i 0 Hn). reflexivity. }
+    rewrite EB in HsB, HMB. split; [exact Hn|]. split; [intros x Hx; apply HMB; [exact Hx|left; reflexivity]|]. split; [exact EB|].
+    intros x Hx. inversion HsB as [|? ? _ Hf]; subst. rewrite Forall_forall in Hf. exact (Hf x Hx).
+  - intros x Hx. unfold B in Hx, HsB. destruct (skipn i ks) as [|k0 ks'] eqn:Es; [destruct Hx|].
+    assert (Hk0 : k < k0) by (apply Hrest; left; reflexivity).
+    destruct Hx as [<-|Hx]; [exact Hk0|]. inversion HsB as [|? ? _ Hf]; subst. rewrite Forall_forall in Hf. specialize (Hf x Hx). lia.
+Qed.
+
+(* Node::change for a removal *)
+Lemma rem_spec : forall d k t, shape d t -> minocc d t -> sorted (inorder d t) -> (match d with O => True | S _ => (1 <= nkeys t)%nat end) ->
+  exists t' need, rem d k t = (t', need) /\
+    inorder d t' = spec_del k (inorder d t) /\ shape d t' /\ minocc d t' /\
+    (nkeys t' = nkeys t \/ S (nkeys t') = nkeys t) /\ need_claim need (nkeys t) (nkeys t').
+Proof.
+  destruct order_val as [Ho Hm].
+  induction d as [|d IH]; intros k [ks cs] Hs Hmin Hso Hn.
+  - (* a leaf *)
+    cbn [shape] in Hs. destruct Hs as [Hlen ->]. cbn [inorder] in Hso. cbn [rem]. destruct (position k ks 0) as [b i] eqn:Ep.
+    destruct (position_spec k ks 0 b i Hso Ep) as [_ [Hi [Hlt Hrest]]]. rewrite Nat.sub_0_r in *. destruct b.
+    + destruct Hrest as [Hnth Hgt]. assert (Hi' : (i < length ks)%nat) by (apply nth_error_Some; rewrite Hnth; discriminate).
+      exists (BT (remove_at i ks) []), (need_rebalance (remove_at i ks)). unfold nkeys. cbn [keys_of inorder shape minocc].
+      split; [reflexivity|]. split.
+      { rewrite <- (firstn_skipn i ks) at 2. rewrite (skipn_cons_nth 0 i ks Hi'), (nth_error_nth ks i 0 Hnth).
+        rewrite spec_del_present by assumption. reflexivity. }
+      split; [split; [rewrite remove_at_length; lia|reflexivity]|]. split; [exact I|].
+      split; [right; rewrite remove_at_length; lia|left; reflexivity].
+    + exists (BT ks []), false. unfold nkeys. cbn [keys_of inorder shape minocc]. split; [reflexivity|]. split.
+      { rewrite <- (firstn_skipn i ks) at 2. rewrite spec_del_absent by assumption. symmetry. apply firstn_skipn. }
+      split; [split; [exact Hlen|reflexivity]|]. split; [exact I|]. split; [left; reflexivity|right; split; reflexivity].
+  - (* an inner node *)
+    destruct (kids_ok d ks cs Hs Hmin) as [Hl Hall]. pose proof (shape_len _ _ Hs) as Hlen. unfold nkeys in Hlen, Hn. cbn [keys_of] in Hlen, Hn.
+    cbn [inorder] in Hso. cbn [rem]. destruct (position k ks 0) as [b i] eqn:Ep.
+    destruct (descend_setup d ks cs k b i Hl Hso Ep) as [Hi [Hat [HsM [HA Hb]]]].
+    set (A := zipA (firstn i (map (inorder d) cs)) (firstn i ks)) in *.
+    set (B := match skipn i ks with [] => [] | k0 :: ks' => k0 :: interleave (skipn (S i) (map (inorder d) cs)) ks' end) in *.
+    assert (Hic : (i < length cs)%nat) by lia.
+    destruct (Hall i Hic) as [Hsc [Hnc Hmc]].
+    destruct b.
+    + (* the key is a separator: the largest key of the left subtree takes its place *)
+      destruct Hb as [Hnth [HM [EB HB']]]. assert (Hi' : (i < length ks)%nat) by (apply nth_error_Some; rewrite Hnth; discriminate).
+      set (B' := interleave (skipn (S i) (map (inorder d) cs)) (skipn (S i) ks)) in *.
+      destruct (remove_last_spec d (child_at cs i) Hsc Hmc) as [c' [need [s [Er [Hio [Hsc' [Hmc' [Hnk Hcl]]]]]]]]; [lia|]. rewrite Er.
+      set (ks1 := set_at i s ks). set (cs1 := set_at i c' cs).
+      assert (Hl1 : length ks1 = length ks) by (apply set_at_length; exact Hi').
+      assert (Hl2 : length cs1 = length cs) by (apply set_at_length; exact Hic).
+      assert (Hflat : interleave (map (inorder d) cs1) ks1 = spec_del k (interleave (map (inorder d) cs) ks)).
+      { rewrite Hat, EB. unfold cs1, ks1. rewrite map_set_at.
+        rewrite (interleave_at (set_at i (inorder d c') (map (inorder d) cs)) (set_at i s ks) i) by (rewrite ?set_at_length; rewrite ?map_length; lia).
+        rewrite firstn_set_at by (rewrite map_length; lia). rewrite (firstn_set_at i s ks) by lia. fold A.
+        rewrite nth_set_at by (rewrite map_length; lia).
+        rewrite (skipn_cons_nth 0 i (set_at i s ks)) by (rewrite set_at_length; lia). rewrite (nth_set_at i s ks) by lia.
+        rewrite (skipn_set_at i s ks) by lia. rewrite skipn_set_at by (rewrite map_length; lia). fold B'.
+        rewrite Hio. rewrite <- !app_assoc. cbn [app].
+        replace (A ++ inorder d c' ++ s :: k :: B') with ((A ++ inorder d c' ++ [s]) ++ k :: B') by (rewrite <- !app_assoc; reflexivity).
+        rewrite spec_del_present; [rewrite <- !app_assoc; reflexivity| |exact HB'].
+        intros x Hx. apply in_app_or in Hx as [Hx|Hx]; [exact (HA x Hx)|]. apply HM. rewrite Hio. exact Hx. }
+      assert (Hkids' : forall j, (j < length cs1)%nat -> j <> i -> kid_ok d (child_at cs1 j)) by (apply set_at_kids; assumption).
+      assert (Hci : child_at cs1 i = c') by (unfold child_at, cs1; apply nth_set_at; exact Hic).
+      destruct need.
+      * assert (Hn' : (nkeys c' = middle - 1)%nat).
+        { destruct Hcl as [Hcl|[Hcl _]]; [|discriminate]. symmetry in Hcl. apply Nat.ltb_lt in Hcl. lia. }
+        destruct (rebalance_spec d ks1 cs1 i) as [Hf [Hkl [Hko Hnn]]]; try lia; try (rewrite Hci; assumption).
+        { intros j Hj Hne. apply Hkids'; assumption. }
+        set (t' := rebalance ks1 cs1 i) in *. destruct t' as [ks' cs'] eqn:Et. unfold nkeys in Hkl, Hnn. cbn [keys_of kids_of] in *.
+        exists (BT ks' cs'), (need_rebalance ks'). cbn [keys_of]. split; [reflexivity|]. split; [rewrite Hf; exact Hflat|].
+        destruct (node_from_kids d ks' cs') as [Hs' Hm']; [lia|exact Hkl|exact Hko|].
+        split; [exact Hs'|]. split; [exact Hm'|]. unfold nkeys. cbn [keys_of]. split; [lia|left; reflexivity].
+      * assert (Hnk' : (middle <= nkeys c')%nat).
+        { destruct Hcl as [Hcl|[_ Hcl]]; [symmetry in Hcl; apply Nat.ltb_ge in Hcl; exact Hcl|lia]. }
+        exists (BT ks1 cs1), (need_rebalance ks1). cbn [keys_of]. split; [reflexivity|]. split; [exact Hflat|].
+        destruct (node_from_kids d ks1 cs1) as [Hs' Hm']; [lia|lia| |].
+        { apply Forall_nth. intros j dflt Hj. rewrite (nth_indep _ dflt empty_node Hj). destruct (Nat.eq_dec j i) as [->|Hne].
+          - fold (child_at cs1 i). rewrite Hci. split; [exact Hsc'|split; [exact Hnk'|exact Hmc']].
+          - apply Hkids'; assumption. }
+        split; [exact Hs'|]. split; [exact Hm'|]. unfold nkeys. cbn [keys_of]. rewrite Hl1. split; [left; reflexivity|].
+        unfold need_claim, need_rebalance. rewrite Hl1. left. reflexivity.
+    + (* the key, if it is there, is below child i *)
+      assert (HsubS : sorted (inorder d (child_at cs i))) by exact HsM.
+      destruct (IH k (child_at cs i) Hsc Hmc HsubS) as [c' [need [Er [Hio [Hsc' [Hmc' [Hnk Hcl]]]]]]]; [destruct d; [exact I|lia]|]. rewrite Er.
+      set (cs1 := set_at i c' cs).
+      assert (Hl2 : length cs1 = length cs) by (apply set_at_length; exact Hic).
+      assert (Hflat : interleave (map (inorder d) cs1) ks = spec_del k (interleave (map (inorder d) cs) ks)).
+      { rewrite Hat. rewrite spec_del_inner by assumption. rewrite <- Hio. unfold cs1. rewrite map_set_at.
+        rewrite (interleave_at (set_at i (inorder d c') (map (inorder d) cs)) ks i) by (rewrite ?set_at_length; rewrite ?map_length; lia).
+        rewrite firstn_set_at by (rewrite map_length; lia). rewrite nth_set_at by (rewrite map_length; lia).
+        rewrite skipn_set_at by (rewrite map_length; lia). reflexivity. }
+      assert (Hkids' : forall j, (j < length cs1)%nat -> j <> i -> kid_ok d (child_at cs1 j)) by (apply set_at_kids; assumption).
+      assert (Hci : child_at cs1 i = c') by (unfold child_at, cs1; apply nth_set_at; exact Hic).
+      destruct need.
+      * assert (Hn' : (nkeys c' = middle - 1)%nat).
+        { destruct Hcl as [Hcl|[Hcl _]]; [|discriminate]. symmetry in Hcl. apply Nat.ltb_lt in Hcl. lia. }
+        destruct (rebalance_spec d ks cs1 i) as [Hf [Hkl [Hko Hnn]]]; try lia; try (rewrite Hci; assumption).
+        { intros j Hj Hne. apply Hkids'; assumption. }
+        set (t' := rebalance ks cs1 i) in *. destruct t' as [ks' cs'] eqn:Et. unfold nkeys in Hkl, Hnn. cbn [keys_of kids_of] in *.
+        exists (BT ks' cs'), (need_rebalance ks'). cbn [keys_of]. split; [reflexivity|]. split; [rewrite Hf; exact Hflat|].
+        destruct (node_from_kids d ks' cs') as [Hs' Hm']; [lia|exact Hkl|exact Hko|].
+        split; [exact Hs'|]. split; [exact Hm'|]. unfold nkeys. cbn [keys_of]. split; [lia|left; reflexivity].
+      * assert (Hnk' : (middle <= nkeys c')%nat).
+        { destruct Hcl as [Hcl|[_ Hcl]]; [symmetry in Hcl; apply Nat.ltb_ge in Hcl; exact Hcl|lia]. }
+        exists (BT ks cs1), false. split; [reflexivity|]. split; [exact Hflat|].
+        destruct (node_from_kids d ks cs1) as [Hs' Hm']; [lia|lia| |].
+        { apply Forall_nth. intros j dflt Hj. rewrite (nth_indep _ dflt empty_node Hj). destruct (Nat.eq_dec j i) as [->|Hne].
+          - fold (child_at cs1 i). rewrite Hci. split; [exact Hsc'|split; [exact Hnk'|exact Hmc']].
+          - apply Hkids'; assumption. }
+        split; [exact Hs'|]. split; [exact Hm'|]. unfold nkeys. cbn [keys_of]. split; [left; reflexivity|right; split; reflexivity].
+Qed.
+
+(* ---- insertion keeps the occupancy ---- *)
+Lemma forall_firstn {A} (P : A -> Prop) n l : Forall P l -> Forall P (firstn n l).
+Proof. intros H. rewrite Forall_forall in *. intros x Hx. apply H. rewrite <- (firstn_skipn n l). apply in_or_app. left. exact Hx. Qed.
+Lemma forall_skipn {A} (P : A -> Prop) n l : Forall P l -> Forall P (skipn n l).
+Proof. intros H. rewrite Forall_forall in *. intros x Hx. apply H. rewrite <- (firstn_skipn n l). apply in_or_app. right. exact Hx. Qed.
+Lemma forall_insert_at {A} (P : A -> Prop) i x l : Forall P l -> P x -> Forall P (insert_at i x l).
+Proof. intros Hl Hx. unfold insert_at. apply Forall_app. split; [apply forall_firstn; exact Hl|constructor; [exact Hx|apply forall_skipn; exact Hl]]. Qed.
+
+Definition occ (d : nat) (c : btn) : Prop := (middle <= nkeys c)%nat /\ minocc d c.
+
+Lemma split_occ d ks cs : (length ks <= S order)%nat -> Forall (occ (pred d)) cs -> (d = O -> cs = []) ->
+  match split_if_full ks cs with
+  | (t', None) => t' = BT ks cs
+  | (t', Some (_, rt)) => nkeys t' = middle /\ nkeys rt = middle /\ minocc d t' /\ minocc d rt
+  end.
+Proof.
+  destruct order_val as [Ho Hm]. intros Hl Hf Hd. unfold split_if_full. destruct (Nat.ltb_spec order (length ks)) as [Hfull|Hnot]; [|reflexivity].
+  unfold nkeys. cbn [keys_of]. split; [rewrite firstn_length; lia|]. split; [rewrite skipn_length; lia|].
+  destruct d as [|d]; cbn [minocc kids_of pred] in *; [split; exact I|]. split; [apply forall_firstn|apply forall_skipn]; exact Hf.
+Qed.
+
+Lemma position_le k : forall ks n b i, position k ks n = (b, i) -> (i <= n + length ks)%nat.
+Proof.
+  induction ks as [|x ks IHk]; intros n b i H; cbn in H; [injection H as <- <-; lia|].
+  destruct (k <? x); [injection H as <- <-; cbn; lia|]. destruct (k =? x); [injection H as <- <-; cbn; lia|]. apply IHk in H. cbn. lia.
+Qed.
+
+Lemma ins_occ : forall d k t, shape d t -> minocc d t ->
+  match ins d k t with
+  | (t', None) => minocc d t' /\ (nkeys t <= nkeys t')%nat
+  | (t', Some (_, rt)) => nkeys t' = middle /\ nkeys rt = middle /\ minocc d t' /\ minocc d rt
+  end.
+Proof.
+  destruct order_val as [Ho Hm].
+  induction d as [|d IH]; intros k [ks cs] Hs Hmin; pose proof (shape_len _ _ Hs) as Hlen; unfold nkeys in Hlen; cbn [keys_of] in Hlen.
+  - cbn [shape] in Hs. destruct Hs as [_ ->]. cbn [ins]. destruct (position k ks 0) as [b i] eqn:Ep.
+    destruct b; [split; [exact I|lia]|].
+    assert (Hi : (i <= length ks)%nat).
+    { apply (position_le k ks 0%nat false i Ep). }
+    pose proof (split_occ 0 (insert_at i k ks) []) as Hsp. rewrite insert_at_length in Hsp by lia.
+    specialize (Hsp ltac:(lia) (Forall_nil _) (fun _ => eq_refl)).
+    destruct (split_if_full (insert_at i k ks) []) as [t' [[s rt]|]]; [exact Hsp|]. subst t'. unfold nkeys. cbn [keys_of minocc]. rewrite insert_at_length by lia. split; [exact I|lia].
+  - destruct (kids_ok d ks cs Hs Hmin) as [Hl Hall]. cbn [ins]. destruct (position k ks 0) as [b i] eqn:Ep.
+    destruct b; [split; [exact Hmin|lia]|].
+    assert (Hi : (i <= length ks)%nat).
+    { apply (position_le k ks 0%nat false i Ep). }
+    assert (Hic : (i < length cs)%nat) by lia. destruct (Hall i Hic) as [Hsc [Hnc Hmc]].
+    specialize (IH k (child_at cs i) Hsc Hmc).
+    assert (Hocc : Forall (occ d) cs).
+    { apply Forall_nth. intros j dflt Hj. rewrite (nth_indep _ dflt empty_node Hj). destruct (Hall j Hj) as [_ [H1 H2]]. split; assumption. }
+    destruct (ins d k (child_at cs i)) as [c' [[s rt]|]].
+    + destruct IH as [Hn1 [Hn2 [Hm1 Hm2]]].
+      assert (Hocc' : Forall (occ d) (insert_at (S i) rt (set_at i c' cs))).
+      { apply forall_insert_at; [apply set_at_forall; [exact Hocc|split; [lia|exact Hm1]]|split; [lia|exact Hm2]]. }
+      pose proof (split_occ (S d) (insert_at i s ks) (insert_at (S i) rt (set_at i c' cs))) as Hsp. rewrite insert_at_length in Hsp by lia.
+      specialize (Hsp ltac:(lia) Hocc' ltac:(discriminate)).
+      destruct (split_if_full (insert_at i s ks) (insert_at (S i) rt (set_at i c' cs))) as [t' [[s2 rt2]|]]; [exact Hsp|]. subst t'.
+      unfold nkeys. cbn [keys_of minocc kids_of]. rewrite insert_at_length by lia. split; [exact Hocc'|lia].
+    + destruct IH as [Hm1 Hn1]. unfold nkeys. cbn [keys_of minocc kids_of]. split; [|lia].
+      apply set_at_forall; [exact Hocc|split; [lia|exact Hm1]].
+Qed.
+
+(* ---- the whole tree under sets and removals ---- *)
+Definition tree_inv (st : nat * btn) : Prop :=
+  shape (fst st) (snd st) /\ sorted (inorder (fst st) (snd st)) /\ minocc (fst st) (snd st) /\
+  match fst st with O => True | S _ => (1 <= nkeys (snd st))%nat end.
+
+Theorem bt_insert_inv st k : tree_inv st -> tree_inv (bt_insert st k) /\ elements (bt_insert st k) = spec_ins k (elements st).
+Proof.
+  destruct order_val as [Ho Hm]. destruct st as [d t]. intros [Hsh [Hso [Hmin Hroot]]]. cbn [fst snd] in *.
+  destruct (bt_insert_spec (d, t) k (conj Hsh Hso)) as [[Hs' Hso'] He]. split; [|exact He].
+  unfold bt_insert in *. pose proof (ins_occ d k t Hsh Hmin) as Hocc. destruct (ins d k t) as [t' [[s rt]|]]; cbn [fst snd] in *.
+  - destruct Hocc as [Hn1 [Hn2 [Hm1 Hm2]]]. split; [exact Hs'|]. split; [exact Hso'|]. split; [|unfold nkeys; cbn; lia].
+    cbn [minocc kids_of]. constructor; [split; [lia|exact Hm1]|constructor; [split; [lia|exact Hm2]|constructor]].
+  - destruct Hocc as [Hm1 Hn1]. split; [exact Hs'|]. split; [exact Hso'|]. split; [exact Hm1|]. destruct d; cbn [fst snd] in Hroot |- *; [exact I|lia].
+Qed.
+
+Theorem bt_remove_inv st k : tree_inv st -> tree_inv (bt_remove st k) /\ elements (bt_remove st k) = spec_del k (elements st).
+Proof.
+  destruct order_val as [Ho Hm]. destruct st as [d t]. intros [Hsh [Hso [Hmin Hroot]]]. cbn [fst snd] in *. unfold bt_remove, elements. cbn [fst snd].
+  destruct (rem_spec d k t Hsh Hmin Hso Hroot) as [t' [need [Er [Hio [Hs' [Hm' [Hnk Hcl]]]]]]]. rewrite Er.
+  assert (Hso' : sorted (inorder d t')) by (rewrite Hio; apply spec_del_sorted; exact Hso).
+  assert (Hkeep : tree_inv (d, t') \/ exists d' c, d = S d' /\ t' = BT [] [c] /\ need = true) .
+  { destruct d as [|d']; [left; repeat split; assumption|]. change (1 <= nkeys t)%nat in Hroot. destruct (Nat.eq_dec (nkeys t') 0) as [H0|H0].
+    - right. destruct t' as [ks' cs']. unfold nkeys in H0. cbn [keys_of] in H0. destruct ks'; [|discriminate].
+      cbn [shape] in Hs'. destruct Hs' as [_ [Hl' _]]. destruct cs' as [|c [|c2 cs2]]; try discriminate. exists d', c. split; [reflexivity|]. split; [reflexivity|].
+      destruct Hcl as [->|[_ Hcl]]; [reflexivity|]. unfold nkeys in Hcl, Hroot. cbn [keys_of length] in Hcl. lia.
+    - left. repeat split; try assumption. cbn [fst snd]. lia. }
+  destruct Hkeep as [Hinv|[d' [c [-> [-> ->]]]]].
+  - assert (E : (if need then match t', d with BT [] (c :: _), S d' => (d', c) | _, _ => (d, t') end else (d, t')) = (d, t')).
+    { destruct need; [|reflexivity]. destruct t' as [[|k0 ks'] [|c cs']]; try reflexivity. destruct d as [|d']; [reflexivity|].
+      exfalso. destruct Hinv as [_ [_ [_ Hr]]]. cbn [fst snd] in Hr. unfold nkeys in Hr. cbn in Hr. lia. }
+    rewrite E. split; [exact Hinv|exact Hio].
+  - cbn [fst snd]. cbn [shape] in Hs'. destruct Hs' as [_ [_ Hfs]]. inversion Hfs as [|? ? Hsc _]; subst.
+    cbn [minocc kids_of] in Hm'. inversion Hm' as [|? ? [Hnc Hmc] _]; subst.
+    assert (Ei : inorder (S d') (BT [] [c]) = inorder d' c) by (cbn; reflexivity). rewrite Ei in Hio, Hso'.
+    split; [|exact Hio]. split; [exact Hsc|]. split; [exact Hso'|]. split; [exact Hmc|]. cbn [fst snd]. destruct d'; [exact I|lia].
+Qed.
+
+Definition spec_step (l : list N) (o : bop) : list N := match o with BSet k => spec_ins k l | BDel k => spec_del k l end.
+
+Lemma binit_inv : tree_inv binit.
+Proof. destruct order_val as [Ho Hm]. unfold tree_inv, binit. cbn. repeat split; [lia|constructor]. Qed.
+
+(* every tree reachable by setting and removing keys, in any order, is well shaped, sorted, balanced and
+   holds exactly the keys it should *)
+Theorem bsteps_keep_tree : forall ops st, tree_inv st ->
+  tree_inv (fold_left bstep ops st) /\ elements (fold_left bstep ops st) = fold_left spec_step ops (elements st).
+Proof.
+  induction ops as [|o ops IH]; intros st H; cbn [fold_left]; [split; [exact H|reflexivity]|].
+  assert (H1 : tree_inv (bstep st o) /\ elements (bstep st o) = spec_step (elements st) o).
+  { destruct o as [k|k]; cbn [bstep spec_step]; [apply bt_insert_inv|apply bt_remove_inv]; exact H. }
+  destruct H1 as [H1 H2]. destruct (IH _ H1) as [H3 H4]. split; [exact H3|]. rewrite H4, H2. reflexivity.
+Qed.
